@@ -54,6 +54,7 @@ package gabi
 //@   requires p != nil && forall k in dom(p.AResponses) :: k >= 0 && p.AResponses[k] != nil
 //@   assume revocation.Parameters.AttributeSize == 195 && revocation.Parameters.ChallengeLength == 256 && revocation.Parameters.ZkStat == 128
 //@   ensures found: result >= 0 ==> in(p.AResponses, result) && val(p.AResponses[result]) < pow2(revocation.Parameters.AttributeSize + revocation.Parameters.ChallengeLength + revocation.Parameters.ZkStat + 1)
+//@   ensures[C11] unique: result >= 0 ==> forall k in dom(p.AResponses) :: k != result ==> val(p.AResponses[k]) >= pow2(revocation.Parameters.AttributeSize + revocation.Parameters.ChallengeLength + revocation.Parameters.ZkStat + 1)
 //@   ensures none: result < 0 ==> result == 0 - 1 && forall k in dom(p.AResponses) :: val(p.AResponses[k]) >= pow2(revocation.Parameters.AttributeSize + revocation.Parameters.ChallengeLength + revocation.Parameters.ZkStat + 1)
 //@   modifies nothing
 //@   loop 0 invariant forall k in dom(p.AResponses) :: seen(k) ==> val(p.AResponses[k]) >= pow2(revocation.Parameters.AttributeSize + revocation.Parameters.ChallengeLength + revocation.Parameters.ZkStat + 1)
@@ -257,8 +258,9 @@ package gabi
 
 //@ func RepresentToPublicKey
 //@   property C05 C06
-//@   requires wfpk(pk) && len(exps) <= len(pk.R) && forall i in 0..len(exps) :: exps[i] != nil && val(exps[i]) >= 0
-//@   ensures value: result0 != nil && fresh(result0) && val(result0) == represent(pk.R, exps, pk.N, pk.Params.Lm, 0, len(exps))
+//@   requires wfpk(pk) && forall i in 0..len(exps) :: exps[i] != nil && val(exps[i]) >= 0
+//@   ensures value: err == nil ==> result0 != nil && fresh(result0) && val(result0) == represent(pk.R, exps, pk.N, pk.Params.Lm, 0, len(exps))
+//@   ensures bases: err == nil <==> len(exps) <= len(pk.R)
 //@   modifies nothing
 
 //@ pred clsigok(s, pk, ms) := pow2(pk.Params.Le - 1) <= val(s.E) && val(s.E) <= pow2(pk.Params.Le - 1) + pow2(pk.Params.LePrime - 1) && isprime(val(s.E)) && val(pk.Z) == rem(prod(prod(pow(val(s.A), val(s.E), val(pk.N)), ite(s.KeyshareP != nil, prod(represent(pk.R, ms, pk.N, pk.Params.Lm, 0, len(ms)), val(s.KeyshareP)), represent(pk.R, ms, pk.N, pk.Params.Lm, 0, len(ms)))), powsigned(val(pk.S), val(s.V), val(pk.N))), val(pk.N))
@@ -267,7 +269,8 @@ package gabi
 //@   property C05 C06
 //@   ensures ok: result ==> clsigok(s, pk, ms)
 //@   safety
-//@   requires s != nil && wfpk(pk) && s.A != nil && s.E != nil && s.V != nil && len(ms) <= len(pk.R)
+//@   requires s != nil && wfpk(pk) && s.A != nil && s.E != nil && s.V != nil
+//@   ensures block: result ==> len(ms) <= len(pk.R)
 //@   requires forall i in 0..len(ms) :: ms[i] != nil && val(ms[i]) >= 0
 //@   ensures interval: result ==> pow2(pk.Params.Le - 1) <= val(s.E) && val(s.E) <= pow2(pk.Params.Le - 1) + pow2(pk.Params.LePrime - 1)
 //@   ensures prime: result ==> isprime(val(s.E))
@@ -290,7 +293,6 @@ package gabi
 //@   property C06
 //@   safety
 //@   requires b != nil && wfpk(b.pk) && b.secret != nil && val(b.secret) >= 0 && b.vPrime != nil && b.context != nil && b.nonce2 != nil
-//@   requires len(attributes) + 1 <= len(b.pk.R)
 //@   requires forall i in 0..len(attributes) :: in(b.mUser, i + 1) || (attributes[i] != nil && val(attributes[i]) >= 0)
 //@   requires forall k in dom(b.mUser) :: b.mUser[k] != nil && val(b.mUser[k]) >= 0 && k >= 1
 //@   requires msg != nil ==> (msg.Proof != nil ==> (msg.Proof.C != nil ==> val(msg.Proof.C) >= 0) && (msg.Proof.EResponse != nil ==> val(msg.Proof.EResponse) >= 0)) && (msg.Signature != nil && msg.Signature.E != nil ==> val(msg.Signature.E) >= 0) && (forall k in dom(msg.MIssuer) :: msg.MIssuer[k] != nil ==> val(msg.MIssuer[k]) >= 0)
